@@ -16,19 +16,17 @@ import SlogModel.Basic
 
 namespace Reload
 
-inductive Phase where
-  | accepted       -- socket accepted, `NewSink` not yet done
-  | creating (sid gen : Nat)  -- legacy only: downstream sink created, not yet stored in the slot
-  | registered     -- sink stored in the slot; records flow
-  | sinkClosed     -- sink closed (slot cleared), socket still open
-  | socketClosed   -- legacy only: socket closed first, sink still open
-  | done
-  deriving DecidableEq, Repr
+/-! association lists keyed by client number -/
 
-structure Conn where
-  cid : Nat
-  num : Nat                -- client number = file descriptor
-  phase : Phase
+def aget {β : Type} (l : List (Nat × β)) (k : Nat) : Option β := (l.find? (fun p => p.1 = k)).map (·.2)
+def adel {β : Type} (l : List (Nat × β)) (k : Nat) : List (Nat × β) := l.filter (fun p => p.1 ≠ k)
+def aput {β : Type} (l : List (Nat × β)) (k : Nat) (v : β) : List (Nat × β) := adel l k ++ [(k, v)]
+
+inductive Phase where
+  | accepted                  -- socket accepted, `NewSink` not yet done
+  | creating (sid gen : Nat)  -- legacy only: downstream sink created, not yet stored in the slot
+  | registered                -- sink stored in the slot; records flow
+  | sinkClosed                -- sink closed (slot cleared), socket still open
   deriving DecidableEq, Repr
 
 structure Sink where
@@ -46,39 +44,35 @@ inductive Ev where
   | reloadFailed
   deriving DecidableEq, Repr
 
+/-- the live connection of each client number (a number belongs to at most one open socket) -/
 structure St where
   gen : Nat := 0
   shut : List Nat := []                 -- generations shut down
   slots : List (Nat × Sink) := []       -- client number ↦ downstream sink (`downstreamSinks`; a closed sink leaves its slot)
   fds : List Nat := []                  -- open sockets
-  conns : List Conn := []
+  phases : List (Nat × Phase) := []     -- client number ↦ phase of the connection that owns the socket
+  zombies : List Nat := []              -- legacy only: connections whose socket is closed while their sink is still open
   nextSid : Nat := 0
   hist : List Ev := []
   bad : List String := []               -- violations observed (ghost)
   deriving Repr
 
 inductive Act where
-  | connect (cid num : Nat)
-  | register (cid : Nat)
-  | accept (cid rec : Nat)
-  | tick (cid : Nat)
-  | closeSink (cid : Nat)
-  | closeSocket (cid : Nat)
+  | connect (num : Nat)
+  | register (num : Nat)
+  | accept (num rec : Nat)
+  | tick (num : Nat)
+  | closeSink (num : Nat)
+  | closeSocket (num : Nat)
   | reload
   | reloadFail
   -- legacy interleavings
-  | createSink (cid : Nat)              -- F-15: `orc.downstream.NewSink` before the lock
-  | storeSink (cid : Nat)               -- F-15: the store under the lock
-  | closeSocketFirst (cid : Nat)        -- F-16: socket closed while the sink is still open
-  | closeSinkLate (cid : Nat)           -- F-16: … then the sink, through the shared slot
+  | createSink (num : Nat)              -- F-15: `orc.downstream.NewSink` before the lock
+  | storeSink (num : Nat)               -- F-15: the store under the lock
+  | closeSocketFirst (num : Nat)        -- F-16: socket closed while the sink is still open
+  | zombieAccept (num rec : Nat)        -- F-16: … its last flush goes through the shared slot
+  | closeSinkLate (num : Nat)           -- F-16: … and so does its Close
   deriving DecidableEq, Repr
-
-def slotOf (s : St) (n : Nat) : Option Sink := (s.slots.find? (fun p => p.1 = n)).map (·.2)
-def connOf (s : St) (cid : Nat) : Option Conn := s.conns.find? (fun c => c.cid = cid)
-def setPhase (s : St) (cid : Nat) (p : Phase) : St :=
-  { s with conns := s.conns.map (fun c => if c.cid = cid then { c with phase := p } else c) }
-def setSlot (s : St) (n : Nat) (k : Sink) : St := { s with slots := s.slots.filter (fun p => p.1 ≠ n) ++ [(n, k)] }
-def clearSlot (s : St) (n : Nat) : St := { s with slots := s.slots.filter (fun p => p.1 ≠ n) }
 
 /-- a downstream call on a sink: a violation if its downstream was shut down -/
 def useSink (s : St) (k : Sink) (what : String) : St :=
@@ -90,11 +84,22 @@ def newSinkOn (s : St) (n : Nat) : St × Sink :=
 
 /-- closing a sink through its slot (`(*ptr).Close(); *ptr = nil`); `none` = nil dereference -/
 def closeVia (s : St) (n : Nat) : Option St :=
-  match slotOf s n with
+  match aget s.slots n with
   | none => none
   | some k =>
     let s := useSink s k "Close"
-    some (clearSlot { s with hist := s.hist ++ [.close k.sid] } n)
+    some { s with hist := s.hist ++ [.close k.sid], slots := adel s.slots n }
+
+/-- a downstream call through the slot; `none` = nil dereference -/
+def callVia (s : St) (n : Nat) (what : String) (ev : Nat → Ev) : Option St :=
+  match aget s.slots n with
+  | none => none
+  | some k => let s := useSink s k what; some { s with hist := s.hist ++ [ev k.sid] }
+
+/-- new sinks for every occupied slot, numbered from `sid` -/
+def renew (g : Nat) : Nat → List (Nat × Sink) → List (Nat × Sink)
+  | _, [] => []
+  | sid, (n, _) :: r => (n, { sid := sid, gen := g }) :: renew g (sid + 1) r
 
 /-- `reload` under the write lock: close every sink in place, shut the old downstream down, start the
 new one, re-create a sink for every occupied slot -/
@@ -102,91 +107,72 @@ def reloadStep (s : St) : St :=
   let closes := s.slots.map (fun p => Ev.close p.2.sid)
   let staleBad := (s.slots.filter (fun p => p.2.gen ∈ s.shut)).map (fun _ => "Close on a sink of a downstream that was shut down")
   let g := s.gen + 1
-  let slots' := s.slots.mapIdx (fun i p => (p.1, ({ sid := s.nextSid + i, gen := g } : Sink)))
+  let slots' := renew g s.nextSid s.slots
   { s with shut := s.shut ++ [s.gen], gen := g, slots := slots', nextSid := s.nextSid + s.slots.length,
            bad := s.bad ++ staleBad,
            hist := s.hist ++ closes ++ [.shutdown s.gen, .started g] ++ slots'.map (fun p => Ev.newSink p.2.sid g p.1) }
 
+def occupiedBad (s : St) (n : Nat) : St :=
+  if (aget s.slots n).isSome then { s with bad := s.bad ++ ["created new sink while old sink is still in place"] } else s
+
 def step (s : St) : Act → Option St
-  | .connect cid n =>
-    if n ∈ s.fds ∨ (connOf s cid).isSome then none
-    else some { s with fds := s.fds ++ [n], conns := s.conns ++ [{ cid := cid, num := n, phase := .accepted }] }
-  | .register cid =>
-    match connOf s cid with
-    | some c =>
-      if c.phase ≠ .accepted then none else
-      let s := if (slotOf s c.num).isSome then { s with bad := s.bad ++ ["created new sink while old sink is still in place"] } else s
-      let (s, k) := newSinkOn s c.num
-      some (setPhase (setSlot s c.num k) cid .registered)
-    | none => none
-  | .accept cid r =>
-    match connOf s cid with
-    | some c =>
-      if c.phase ≠ .registered ∧ c.phase ≠ .socketClosed then none else
-      match slotOf s c.num with
-      | none => none                        -- nil dereference
-      | some k => let s := useSink s k "Accept"; some { s with hist := s.hist ++ [.accept k.sid r] }
-    | none => none
-  | .tick cid =>
-    match connOf s cid with
-    | some c =>
-      if c.phase ≠ .registered ∧ c.phase ≠ .socketClosed then none else
-      match slotOf s c.num with
-      | none => none
-      | some k => let s := useSink s k "Tick"; some { s with hist := s.hist ++ [.tick k.sid] }
-    | none => none
-  | .closeSink cid =>
-    match connOf s cid with
-    | some c =>
-      if c.phase ≠ .registered then none else
-      (closeVia s c.num).map (fun s => setPhase s cid .sinkClosed)
-    | none => none
-  | .closeSocket cid =>
-    match connOf s cid with
-    | some c =>
-      if c.phase ≠ .sinkClosed then none else
-      some (setPhase { s with fds := s.fds.filter (· ≠ c.num) } cid .done)
-    | none => none
+  | .connect n =>
+    if n ∈ s.fds then none     -- the OS never hands out the number of an open socket
+    else some { s with fds := s.fds ++ [n], phases := aput s.phases n .accepted }
+  | .register n =>
+    match aget s.phases n with
+    | some .accepted =>
+      let (s1, k) := newSinkOn (occupiedBad s n) n
+      some { s1 with slots := aput s1.slots n k, phases := aput s1.phases n .registered }
+    | _ => none
+  | .accept n r =>
+    match aget s.phases n with
+    | some .registered => callVia s n "Accept" (fun sid => .accept sid r)
+    | _ => none
+  | .tick n =>
+    match aget s.phases n with
+    | some .registered => callVia s n "Tick" (fun sid => .tick sid)
+    | _ => none
+  | .closeSink n =>
+    match aget s.phases n with
+    | some .registered => (closeVia s n).map (fun s => { s with phases := aput s.phases n .sinkClosed })
+    | _ => none
+  | .closeSocket n =>
+    match aget s.phases n with
+    | some .sinkClosed => some { s with fds := s.fds.filter (· ≠ n), phases := adel s.phases n }
+    | _ => none
   | .reload => some (reloadStep s)
   | .reloadFail => some { s with hist := s.hist ++ [.reloadFailed] }
   | _ => none
 
 /-- the code before the repairs: the same plus the split `NewSink` and the socket-first close -/
 def stepLegacy (s : St) : Act → Option St
-  | .createSink cid =>
-    match connOf s cid with
-    | some c =>
-      if c.phase ≠ .accepted then none else
-      let (s, k) := newSinkOn s c.num
-      some (setPhase s cid (.creating k.sid k.gen))
-    | none => none
-  | .storeSink cid =>
-    match connOf s cid with
-    | some c =>
-      match c.phase with
-      | .creating sid g =>
-        let s := if (slotOf s c.num).isSome then { s with bad := s.bad ++ ["created new sink while old sink is still in place"] } else s
-        some (setPhase (setSlot s c.num { sid := sid, gen := g }) cid .registered)
-      | _ => none
-    | none => none
-  | .closeSocketFirst cid =>
-    match connOf s cid with
-    | some c =>
-      if c.phase ≠ .registered then none else
-      some (setPhase { s with fds := s.fds.filter (· ≠ c.num) } cid .socketClosed)
-    | none => none
-  | .closeSinkLate cid =>
-    match connOf s cid with
-    | some c =>
-      if c.phase ≠ .socketClosed then none else
-      (closeVia s c.num).map (fun s => setPhase s cid .done)
-    | none => none
+  | .createSink n =>
+    match aget s.phases n with
+    | some .accepted =>
+      let (s1, k) := newSinkOn s n
+      some { s1 with phases := aput s1.phases n (.creating k.sid k.gen) }
+    | _ => none
+  | .storeSink n =>
+    match aget s.phases n with
+    | some (.creating sid g) =>
+      let s1 := occupiedBad s n
+      some { s1 with slots := aput s1.slots n { sid := sid, gen := g }, phases := aput s1.phases n .registered }
+    | _ => none
+  | .closeSocketFirst n =>
+    match aget s.phases n with
+    | some .registered => some { s with fds := s.fds.filter (· ≠ n), phases := adel s.phases n, zombies := s.zombies ++ [n] }
+    | _ => none
+  | .zombieAccept n r => if n ∈ s.zombies then callVia s n "Accept" (fun sid => .accept sid r) else none
+  | .closeSinkLate n =>
+    if n ∈ s.zombies then (closeVia s n).map (fun s => { s with zombies := s.zombies.filter (· ≠ n) }) else none
   | a => step s a
 
 def run (s : St) : List Act → Option St
   | [] => some s
   | a :: as => match step s a with | some s' => run s' as | none => none
 
+/-- `none` = some action was not enabled; for `accept` / `tick` / close of a registered connection that is a nil dereference -/
 def runLegacy (s : St) : List Act → Option St
   | [] => some s
   | a :: as => match stepLegacy s a with | some s' => runLegacy s' as | none => none
